@@ -20,7 +20,7 @@ def _norm(s):
     return s.lstrip('&')
 
 
-def sizeof_match(ctx, prog, rule='SIZEOF-MATCH'):
+def sizeof_match(ctx, prog, rule='SIZEOF-MATCH', minimum=60):
     n = 0
     for f in sorted(prog.lib_fns(), key=lambda f: (f.file, f.line)):
         defs = None
@@ -67,4 +67,4 @@ def sizeof_match(ctx, prog, rule='SIZEOF-MATCH'):
                 cnt[k] = cnt.get(k, 0) + 1
                 ctx.ob(rule, '%s#%d' % (k, cnt[k]), ok, f.loc(c), '%s (%s, ... sizeof (%s))%s' % (cal, f.s(dn)[:50], z['ae'][:50], '' if ok else
                        ': the size bounds a different object than the destination (%d bytes) — truncation or overflow of the destination' % (z.get('v') or 0)), None)
-    ctx.require(n >= 60, 'only %d sized copies with sizeof (object) found' % n)
+    ctx.require(n >= minimum, 'only %d sized copies with sizeof (object) found' % n)
